@@ -20,7 +20,7 @@ import (
 )
 
 // c04Kinds are the upstream answer kinds of the primary name.
-var c04Kinds = []string{"ok", "nodatasoa", "nodatanosoa", "nx", "servfail", "refused", "tc", "ttl0", "cname"}
+var c04Kinds = []string{"ok", "nodatasoa", "nodatanosoa", "nx", "nxsoahi", "servfail", "refused", "tc", "ttl0", "cname"}
 
 // c04Answer is the scripted upstream: a pure function of (lower-cased name,
 // qtype, qclass, DO).  The primary name "p." behaves as kind; every other
@@ -73,6 +73,10 @@ func c04Answer(kind string, req *dns.Msg) (resp *dns.Msg) {
 	case "nx":
 		resp.Rcode = dns.RcodeNameError
 		resp.Ns = []dns.RR{soa(20, 20)}
+	case "nxsoahi":
+		// SOA whose own TTL is below its MINIMUM field.
+		resp.Rcode = dns.RcodeNameError
+		resp.Ns = []dns.RR{soa(10, 3600)}
 	case "servfail":
 		resp.Rcode = dns.RcodeServerFailure
 	case "refused":
